@@ -10,7 +10,7 @@ RELUTIL = {"pkg": "./pkg/release/util", "files": ["pkg/release/util/h_c08_part.g
 
 REPOPKG = {"pkg": "./pkg/repo", "files": ["pkg/repo/h_c18_index.go"]}
 
-ACTION = {"pkg": "./pkg/action", "files": ["pkg/action/h_common.go", "pkg/action/h_smoke.go"]}
+ACTION = {"pkg": "./pkg/action", "files": ["pkg/action/h_common.go", "pkg/action/h_smoke.go", "pkg/action/h_c01_hist.go"]}
 
 CHECKS = {
     "ACTIONSMOKE": {"runs": [dict(ACTION, entries=["HSmoke"])], "bounds": {}, "assumptions": []},
@@ -37,7 +37,14 @@ CHECKS = {
         "bounds": {}, "assumptions": ["self-test only"],
     },
     "C01": {
-        "runs": [dict(STORAGE, entries=["H01Prune"], bounds_quick={"recs": 3, "maxver": 97, "maxhist": 4, "nstatus": 4}, bounds_thorough={"recs": 5, "maxver": 97, "maxhist": 6})],
+        "runs": [dict(STORAGE, entries=["H01Prune"], bounds_quick={"recs": 3, "maxver": 97, "maxhist": 4, "nstatus": 4}, bounds_thorough={"recs": 5, "maxver": 97, "maxhist": 6}),
+                 dict(ACTION, entries=["H01Hist"], bounds_quick={"depth": 2, "faults": 1, "crashes": 0, "maxhist": 2}, bounds_thorough={"depth": 3, "faults": 1, "crashes": 1, "maxhist": 2},
+                      limits={"max_instrs": 20000000, "max_decisions": 2000})],
+        "bounds": {}, "assumptions": [],
+    },
+    "C03": {
+        "runs": [dict(ACTION, entries=["H03Hist"], bounds_quick={"depth": 2, "faults": 1, "crashes": 0, "maxhist": 1}, bounds_thorough={"depth": 3, "faults": 1, "crashes": 0, "maxhist": 2},
+                      limits={"max_instrs": 20000000, "max_decisions": 2000})],
         "bounds": {}, "assumptions": [],
     },
     "C10": {
